@@ -15,7 +15,9 @@ Abstractions (recorded, validated by the correspondence run):
 * the iterative DFS keeps `visited` (an insertion-ordered dict = the current path) and a stack of
   neighbour iterators; the model is the equivalent recursion on the number `rem` of edges that may
   still be appended: the code's test `len(visited) < cutoff` is `rem ≥ 2`, `len(visited) == cutoff`
-  is `rem = 1` (invariant `len(visited) + rem = cutoff + 1`).
+  is `rem = 1` (invariant `len(visited) + rem = cutoff + 1`).  `Pw/C16/Machine.lean` contains the loop
+  itself as a state machine (`C16.run`) and the proof that it terminates with exactly the yields of this
+  recursion (`C16.run_refines_dfs`), so this abstraction is a theorem, not an assumption.
 * `single_source_shortest_mixed_path` is a level-synchronous BFS whose `paths` dict doubles as the
   visited set; only its key set is used by the callers, which is the worklist closure. -/
 namespace C16
